@@ -260,6 +260,7 @@ func (l *lexer) errorf(format string, args ...interface{}) stateFn {
 func (l *lexer) nextItem() item {
 	item := <-l.items
 	l.lastPos = item.pos
+	vt(nil, "lex.recv", verifLex(l), int(item.typ))
 	return item
 }
 
@@ -267,6 +268,7 @@ func (l *lexer) nextItem() item {
 // Called by the parser, not in the lexing goroutine.
 func (l *lexer) drain() {
 	for range l.items {
+		vt(nil, "lex.drainrecv", verifLex(l))
 	}
 }
 
@@ -294,6 +296,7 @@ func (l *lexer) run() {
 		for l.state = lexText; l.state != nil; {
 			l.state = l.state(l)
 		}
+		vt(nil, "lex.close", verifLex(l))
 		close(l.items)
 	}()
 }
